@@ -21,7 +21,20 @@ type subTask interface {
 type subscriptions []Subscription
 
 func (s subscriptions) applyTo(d *subscriptions) {
-	*d = append(*d, s...)
+	for _, sub := range s {
+		replaced := false
+		for i, e := range *d {
+			if e.Topic == sub.Topic {
+				// Subscribing an already subscribed topic replaces the subscription.
+				(*d)[i] = sub
+				replaced = true
+				break
+			}
+		}
+		if !replaced {
+			*d = append(*d, sub)
+		}
+	}
 }
 
 type unsubscriptions []string
